@@ -49,6 +49,9 @@ def horizon_of(spec):
         else:
             total += (node.get('dur') or 0) + (node.get('ticker') or 0)
             total += (node.get('cdur') or 0) + (node.get('sdur') or 0)
+            itmo = node.get('itmo')
+            if itmo:
+                total += itmo.get('rounds', 1) * (itmo['after'] + itmo['close'])
     return total
 
 
@@ -191,6 +194,9 @@ def gen_tree(rng, prof=None, depth=0, idgen=None, top=True, maxdepth=None):
         spec['style'] = 'required_arg'
     if top and rng.random() < 0.3:
         spec['entry'] = 'co_run'
+    if top and rng.random() < p.get('p_extcancel', 0.04):
+        # the caller gives up after a while (the run may be over by then)
+        spec['entry'] = dict(wait_for=rng.choice([0.5, 1, 1.5, 2, 2.5, 3, 4, 6]))
     if spec['verbose'] and rng.random() < 0.5:
         spec['watch'] = True
     if top:
@@ -229,6 +235,10 @@ def gen_tree(rng, prof=None, depth=0, idgen=None, top=True, maxdepth=None):
                 job['sdur'] = None
             if rng.random() < 0.15:
                 job['sswallow'] = True
+            if not job.get('print') and rng.random() < p.get('p_itmo', 0.06):
+                # a job that times out an inner operation by itself and carries on
+                job['itmo'] = dict(after=rng.choice([0.5, 1, 1.5]), close=rng.choice([0.5, 1, 2, 3]),
+                                   rounds=rng.choice([1, 1, 2]))
             if job.get('print'):
                 # a PrintJob always ends by itself and has a trivial co_shutdown()
                 if job['dur'] is None:
@@ -472,7 +482,8 @@ def external_cancel_sweep(thorough=False):
     """the caller of co_run() gives up (asyncio.wait_for) while the run is in
     each phase, at depth 1 and 2: nothing the run started may outlive it"""
     half = [x / 2 for x in range(0, 11)]
-    for x, tP, cdur, sdur, sdtN in itertools.product(half, [None, 1.5, 3], [0, 1], [0, 1], [0, 1, None]):
+    for x, tP, cdur, sdur, sdtN, pure in itertools.product(half, [None, 1.5, 3], [0, 1], [0, 1], [0, 1, None],
+                                                           [False, True]):
         inner = sched('N', [atom('a', 2, cdur=cdur, sdur=sdur, post=1),
                             atom('b', 1, outcome='raise'),
                             atom('c', 1.5, coro=True)],
@@ -480,6 +491,7 @@ def external_cancel_sweep(thorough=False):
         top = sched('P', [inner, atom('p', 3, cdur=1, sdur=1), atom('f', None, forever=True, ticker=1)],
                     timeout=tP, sdt=1)
         top['entry'] = dict(wait_for=x)
+        top['pure'] = pure
         yield assign_hashes(top)
 
 
@@ -493,13 +505,15 @@ def gap_sweep(thorough=False):
     gaps = range(0, 7)
     for pa, pb in itertools.product(gaps, gaps):
         for win in (1, 2, 3):
-            for acrit in (False,):
-                jobs = [atom('A', 1, post=pa, outcome='raise', critical=acrit),
+            # a timeout that is never reached must change nothing (but makes
+            # the library take its deadline-aware paths)
+            for tmo in (None, 50):
+                jobs = [atom('A', 1, post=pa, outcome='raise', critical=False),
                         atom('B', 1, post=pb),
                         atom('C', 1), atom('D', 0.5, coro=True), atom('E', 1),
                         atom('F1', 2.5), atom('F2', 3), atom('F3', 1, post=(pa + pb) % 4)]
                 edges = [('C', 'A'), ('C', 'B'), ('D', 'A'), ('D', 'B'), ('E', 'A')]
-                yield assign_hashes(sched('W', jobs, edges=edges, window=win))
+                yield assign_hashes(sched('W', jobs, edges=edges, window=win, timeout=tmo))
 
 
 SWEEPS = {
